@@ -11,6 +11,7 @@ import (
 	"sort"
 	"strings"
 	"sync"
+	"sync/atomic"
 	"time"
 
 	relaytypes "github.com/attestantio/go-block-relay/types"
@@ -358,6 +359,127 @@ func history(c *harness.Ctx, id string, r *rand.Rand) {
 	c.Distinct(fmt.Sprintf("%d|%s", nVal, strings.Join(fp, ",")))
 }
 
+// inflight: what happens while a registration round is under way. One relay takes its time over the round's request,
+// another fails at once, and a beacon node hands in registrations over REST in the meantime (for a validator Vouch
+// controls, with settings of its own choosing, and for one it does not control).
+func inflight(c *harness.Ctx, id string, r *rand.Rand) {
+	ctx := context.Background()
+	nVal := 2 + r.Intn(3)
+	var accts []harness.Acct
+	for i := 0; i < nVal; i++ {
+		accts = append(accts, harness.NewAcct(harness.KindPlain, "W", fmt.Sprintf("f%d", i), 700+i, phase0.ValidatorIndex(9000+i), nil))
+	}
+	env, err := relaycommon.NewEnv(accts, 1, relaycommon.Outcome{Kind: "error"}, nil)
+	if err != nil {
+		c.Inconclusive("cannot build block relay service: " + err.Error())
+		return
+	}
+	fr := 11
+	doc := &refcfg.Doc2{Opts: refcfg.Opts{FR: &fr}, Relays: map[string]*refcfg.Relay{env.RelayAddr(0): {}, env.RelayAddr(1): {}, env.RelayAddr(2): {}}}
+	env.Config.Set(relaycommon.Outcome{Kind: "valid", Doc: doc.JSON()})
+	env.Refresh()
+	slow, failing := env.Relays[env.RelayAddr(0)], env.Relays[env.RelayAddr(1)]
+	failFast := r.Intn(3) > 0
+	failing.RegErr = failFast
+	gate := make(chan struct{})
+	var arrived atomic.Int64
+	slow.SetRegHold(func(ctx context.Context) error {
+		arrived.Add(1)
+		select {
+		case <-gate:
+			return nil
+		case <-ctx.Done():
+			return ctx.Err()
+		}
+	})
+	roundDone := make(chan struct{})
+	go func() { env.Register(); close(roundDone) }()
+	waitFor := func(cond func() bool) bool {
+		for i := 0; i < 5000; i++ {
+			if cond() {
+				return true
+			}
+			time.Sleep(time.Millisecond)
+		}
+		return false
+	}
+	if !waitFor(func() bool { return arrived.Load() >= 1 }) {
+		c.Inconclusive(id + ": the round's request never reached the slow relay")
+		close(gate)
+		return
+	}
+	// the round is now in flight; a beacon node's registrations arrive
+	foreign := harness.NewAcct(harness.KindPlain, "X", "foreign", 790, 0, nil)
+	mk := func(pk phase0.BLSPubKey, n byte) *relaytypes.SignedValidatorRegistration {
+		m := &relaytypes.ValidatorRegistration{GasLimit: 12345, Timestamp: time.Unix(1700000000, 0), Pubkey: pk}
+		m.FeeRecipient[0] = n
+		sr := &relaytypes.SignedValidatorRegistration{Message: m}
+		sr.Signature[0], sr.Signature[1] = 0xaa, n
+		return sr
+	}
+	controlled := accts[r.Intn(nVal)]
+	restDone := make(chan struct{})
+	go func() {
+		_, _ = env.Svc.ValidatorRegistrations(ctx, []*relaytypes.SignedValidatorRegistration{mk(foreign.Pub48(), 1), mk(controlled.Pub48(), 0xbb)})
+		close(restDone)
+	}()
+	// let the forwarded registrations reach the slow relay as well (or the call end), then let the relay go
+	waitFor(func() bool {
+		select {
+		case <-restDone:
+			return true
+		default:
+			return arrived.Load() >= 2
+		}
+	})
+	close(gate)
+	for _, ch := range []chan struct{}{roundDone, restDone} {
+		select {
+		case <-ch:
+		case <-time.After(15 * time.Second):
+			c.Violate("registration-round-never-ends", "a registration round / REST registration call did not end 15 s after the slow relay had answered", id, nil)
+			return
+		}
+	}
+	detail := map[string]any{"validators": nVal, "other_relay_fails_at_once": failFast, "requests_at_slow_relay": arrived.Load()}
+	c.Count("inflight_rounds", 1)
+	for a, rl := range env.Relays {
+		seen := map[phase0.BLSPubKey]bool{}
+		for _, batch := range rl.RegsSnapshot() {
+			for _, vr := range batch {
+				if vr == nil || vr.V1 == nil || vr.V1.Message == nil {
+					continue
+				}
+				m := vr.V1.Message
+				for _, acc := range accts {
+					if acc.Pub48() != m.Pubkey {
+						continue
+					}
+					if !verifyReg(acc, m, vr.V1.Signature) || m.FeeRecipient != refcfg.FRAddr(fr) {
+						c.Violate("controlled-registration-forwarded:during-round", fmt.Sprintf("relay %s received a registration for %s (a validator Vouch controls) with fee recipient %#x and a signature that is not the validator's: the one a beacon node handed in while the round was in flight", a, acc.FullName(), m.FeeRecipient[:4]), id, detail)
+						return
+					}
+					seen[m.Pubkey] = true
+				}
+			}
+		}
+		if a == env.RelayAddr(3) || (a == failing.Addr && failFast) {
+			continue // not configured / failing
+		}
+		for _, acc := range accts {
+			if !seen[acc.Pub48()] {
+				key := "registration-missing:slow-relay"
+				if failFast {
+					key = "registration-missing:slow-relay-while-another-relay-fails"
+				}
+				c.Violate(key, fmt.Sprintf("relay %s did not receive the round's registration for %s (it was still handling the request when the round went on)", a, acc.FullName()), id, detail)
+				return
+			}
+		}
+	}
+	c.Distinct(fmt.Sprintf("inflight|%d|%v", nVal, failFast))
+}
+
 // resolve is refcfg's resolution with the validators' real keys (proposer entries by key carry them as text).
 func resolve(d *refcfg.Doc2, pubkey phase0.BLSPubKey, name string, fFR [20]byte, fGL uint64) (*refcfg.Resolved, bool) {
 	// an entry with KeyNo -2 is the zero key: unresolvable for whoever reaches it
@@ -398,6 +520,19 @@ func run(c *harness.Ctx) {
 			}()
 		})
 	}
+	ni := c.N(24, 1000)
+	for i := 0; i < ni; i++ {
+		id := fmt.Sprintf("inflight%d", i)
+		c.Case(id, func() {
+			wg.Add(1)
+			sem <- struct{}{}
+			go func() {
+				defer wg.Done()
+				defer func() { <-sem }()
+				inflight(c, id, c.Rand("inflight", i))
+			}()
+		})
+	}
 	wg.Wait()
 }
 
@@ -407,7 +542,7 @@ func main() {
 	harness.Main(&harness.Spec{
 		Property:     "C11",
 		Level:        "exploration",
-		Rule:         "histories of 2-4 rounds {set configuration (grammar-generated v2 documents A/B/A..., optionally with a trailing unresolvable proposer entry), refresh, registration round, proposal preparations} over 2-5 validators (real BLS keys), 4 relays and 2 beacon nodes, with random subsets of failing relays, failing beacon nodes and validators whose signing fails, and one-second pauses between some rounds; finally registrations arriving over REST. distinct = (validators, multiset of per-round fault patterns)",
+		Rule:         "histories of 2-4 rounds {set configuration (grammar-generated v2 documents A/B/A..., optionally with a trailing unresolvable proposer entry), refresh, registration round, proposal preparations} over 2-5 validators (real BLS keys), 4 relays and 2 beacon nodes, with random subsets of failing relays, failing beacon nodes and validators whose signing fails, and one-second pauses between some rounds; finally registrations arriving over REST; plus rounds held in flight at a slow relay (which gives up when its request context ends) while another relay fails at once and a beacon node hands in registrations for a controlled and a foreign validator. distinct = (validators, multiset of per-round fault patterns)",
 		Batches:      func(string) int { return 2 },
 		Parallel:     2,
 		Run:          run,
